@@ -306,9 +306,13 @@ claim("C09",
       "on completion the code drops the whole buffer (proved), so the clause taken from the statement 'events that "
       "arrived after the completing invocation's snapshot stay in the buffer' fails: recorded known finding, "
       "reproduced natively on every run.",
-      "InternalContext.collect_events itself (Counter arithmetic over event types: which events complete a set, the "
-      "order of the returned list) is not under contract; result lists that mix several collect actions in one tick "
-      "are outside the two shapes.",
+      "InternalContext.collect_events itself works on collections.Counter multisets of event types, outside the "
+      "verifier's encoding: its contract (a list only when every expected type has been received with multiplicity, "
+      "ordered as the expected list, each received event at most once; a still-needed event recorded once; the "
+      "completing event returns the list and clears the buffer) is checked as a BOUNDED stand-in - run-time, real "
+      "function, complete enumeration of expected lists of length 0..3, buffers 0..2 over three event classes - "
+      "labelled bounded, never counted as proved. Result lists that mix several collect actions in one tick are "
+      "outside the two reducer-side shapes.",
       category="other")
 
 claim("C36",
@@ -318,11 +322,17 @@ claim("C36",
       "exactly one deferred release per idle announcement (none otherwise). (2) Release decision: the body of `async "
       "with self._reload_lock(run_id)` in IdleReleaseDecorator._release_idle_handler (extracted mechanically) removes a "
       "run from memory if and only if the store holds exactly one handler row for it whose idle_since is at least "
-      "idle_timeout in the past at that moment and the run is active, and touches no other run.",
-      "NOT covered: the reload on the next event (_ensure_active_run: replay + workflow.run), that the run then "
-      "continues from where it stopped (C11 / C13), clearing idle_since on send_event, and the whole DBOS stack. The "
-      "store query and the clock are modelled as read once inside each section. This check must not be read as a "
-      "proof of C36.",
+      "idle_timeout in the past at that moment and the run is active, and touches no other run. (3) Activity: the body "
+      "of `async with self._runtime._reload_lock(run_id)` in IdleReleaseExternalRunAdapter.send_event clears the idle "
+      "mark (one store write, idle_since=None) when the run is still in memory, reloads it otherwise, and forwards the "
+      "event exactly once afterwards. (4) Reload: _ensure_active_run_locked leaves an active run alone (nothing started, "
+      "nothing written) and starts a released run exactly once under its own run id, marks it active, clears its idle "
+      "mark and changes no other run's membership; when the handler row or the workflow is missing nothing is started.",
+      "NOT covered: that the reloaded run continues from where it stopped (what context_from_ticks replays: C11 / "
+      "C13 cover the replay functions, not this call chain), the interplay of the deferred release task with these "
+      "sections beyond the reload lock, and the whole DBOS stack (packages/llama-agents-dbos: not importable here; a "
+      "seeded change there, C36-m2, is not detected). The store query and the clock are modelled as read once inside "
+      "each section. This check must not be read as a proof of C36.",
       category="other",
       technique="contract-based: postconditions on a mechanically extracted section and over a ghost call log of the "
                 "real methods (pyvc + z3)")
@@ -347,9 +357,13 @@ claim("C15",
       "event, with the status that matches how it ended (WorkflowFailedEvent / WorkflowTimedOutEvent -> failed, with "
       "the error text; WorkflowCancelledEvent -> cancelled; any other StopEvent -> completed, with that event as the "
       "result), for the run's own id, and none for other events or while ticks are replayed; every live event is "
-      "appended to the run's log exactly once and always forwarded to the inner adapter.",
+      "appended to the run's log exactly once and always forwarded to the inner adapter. Two more pieces of the "
+      "statement: _WorkflowService.start_workflow is proved to write the handler row - under the run id the run is "
+      "then started with - BEFORE it schedules the run, on every path including failures (a run that ends at once "
+      "finds its row); ServerRuntimeDecorator._retry_store_write is proved never to consume the runtime-wide backoff "
+      "schedule (every later write, e.g. the terminal status, gets all its attempts).",
       "NOT covered: what the store does with the request (AbstractWorkflowStore.update_handler_status: that a terminal "
-      "status is never overwritten by a later `running`), the retry wrapper _retry_store_write, and that every run "
+      "status is never overwritten by a later `running`), how many attempts _retry_store_write makes, and that every run "
       "does publish a terminal event (C04 shows that for the reducer; the runner is trusted). `self.run_id` and "
       "`is_replaying()` are read through the inner adapter and treated as stable during the call.",
       category="other",
